@@ -150,7 +150,7 @@ func checkC13() *CheckDef {
 	base := c.Harnesses
 	c.Harnesses = func(tier string) []*sym.HarnessConfig {
 		out := base(tier)
-		ng := 5
+		ng := 4
 		if tier == "thorough" {
 			ng = 8
 		}
@@ -175,7 +175,7 @@ func checkC13() *CheckDef {
 	baseB := c.Bounds
 	c.Bounds = func(tier string) map[string]interface{} {
 		m := baseB(tier)
-		m["generated_deserializers"] = "FromWire(Decode(b)) and Decode(stream) (seekable / non-seekable) of every corpus type on arbitrary bytes (<= 5, thorough 8) and on reference encodings of valid values (concrete leaves) in which each length/count field in turn is an arbitrary int32, optionally with arbitrary element-type bytes in front of it"
+		m["generated_deserializers"] = "FromWire(Decode(b)) and Decode(stream) (seekable / non-seekable) of every corpus type on arbitrary bytes (<= 4, thorough 8) and on reference encodings of valid values (concrete leaves) in which each length/count field in turn is an arbitrary int32, optionally with arbitrary element-type bytes in front of it"
 		return genBounds(c, m)
 	}
 	c.Assume = genAssume()
@@ -202,7 +202,11 @@ func checkC13base() *CheckDef {
 						Budget: 300000 + 30000*n, BigLim: b.n + 2, BudgetIsViolation: true, AllocLimit: allocLimit})
 				}
 			}
-			for api := 0; api <= 4; api++ {
+			h13bAPIs := 2
+			if tier == "thorough" {
+				h13bAPIs = 4
+			}
+			for api := 0; api <= h13bAPIs; api++ {
 				out = append(out, &sym.HarnessConfig{Name: "h13b", Pkg: binPkg, Params: map[string]int{"api": api, "depth": b.depth, "budget": b.budget, "k": b.k, "bin": b.bin},
 					Budget: 2000000, BigLim: 48, BudgetIsViolation: true, AllocLimit: allocLimit})
 			}
@@ -239,8 +243,13 @@ func checkC14() *CheckDef {
 	base := c.Harnesses
 	c.Harnesses = func(tier string) []*sym.HarnessConfig {
 		out := base(tier)
-		for _, h := range genHarnesses(c, "gH14g", map[string]int{"depth": 2, "simple": 1}, 20000000) {
+		for _, h := range genHarnesses(c, "gH14g", map[string]int{"depth": 2, "simple": 1, "sameshape": 1}, 20000000) {
 			out = append(out, h)
+		}
+		if tier == "thorough" {
+			for _, h := range genHarnesses(c, "gH14g", map[string]int{"depth": 2, "simple": 1, "sameshape": 0}, 20000000) {
+				out = append(out, h)
+			}
 		}
 		for _, h := range genHarnesses(c, "gH14t", map[string]int{"depth": 1, "simple": 1}, 20000000) {
 			out = append(out, h)
@@ -250,7 +259,7 @@ func checkC14() *CheckDef {
 	baseB := c.Bounds
 	c.Bounds = func(tier string) map[string]interface{} {
 		m := baseB(tier)
-		m["generated_equals"] = "every corpus type: x, y (and z) obtained by decoding reference encodings of independent valid values (containers <= 1 element, nested values all-absent or all-present); Equals vs structural oracle vs wire.ValuesAreEqual; nil receivers/arguments"
+		m["generated_equals"] = "every corpus type: x, y (and z) obtained by decoding reference encodings of valid values (quick: y has the shape of x with independent leaves; thorough: also independent shapes) (containers <= 1 element, nested values all-absent or all-present); Equals vs structural oracle vs wire.ValuesAreEqual; nil receivers/arguments"
 		m["outside"] = "NaN and duplicates (excluded by the statement); larger containers; programs outside the corpus"
 		return genBounds(c, m)
 	}
@@ -565,7 +574,7 @@ func checkC04() *CheckDef {
 		if tier == "thorough" {
 			return bnd{n: 8, muts: 2}
 		}
-		return bnd{n: 5, muts: 1}
+		return bnd{n: 6, muts: 1}
 	}
 	c.Harnesses = func(tier string) []*sym.HarnessConfig {
 		b := bounds(tier)
@@ -573,9 +582,9 @@ func checkC04() *CheckDef {
 		for n := 0; n <= b.n; n++ {
 			out = append(out, genHarnesses(c, "gH04a", map[string]int{"n": n, "depth": 2}, 20000000)...)
 		}
-		simple := 1
+		simple := 2
 		if tier == "thorough" {
-			simple = 0
+			simple = 1
 		}
 		out = append(out, genHarnesses(c, "gH04b", map[string]int{"depth": 2, "muts": b.muts, "simple": simple}, 20000000)...)
 		out = append(out, genHarnesses(c, "gH04v", map[string]int{"depth": 2}, 20000000)...)
@@ -586,7 +595,7 @@ func checkC04() *CheckDef {
 		b := bounds(tier)
 		return genBounds(c, map[string]interface{}{"arbitrary_bytes_max": b.n, "mutations_of_reference_encodings": fmt.Sprintf("truncation at every offset or %d arbitrary byte substitution(s)", b.muts),
 			"readers": "random access; streaming over seekable and one-shot non-seekable sources (segmentation independence of the stream reader is C03's result)",
-			"value_shapes": "containers <= 1 element, strings <= 1 byte, nesting 2, presence patterns as in C01",
+			"value_shapes": "mutated encodings: concrete leaves, containers of 1 element, every nilable field present (thorough: also all absent); value direction: shapes as in C01",
 			"outside":      "programs outside the corpus"})
 	}
 	return c
@@ -602,7 +611,7 @@ func checkC05() *CheckDef {
 			if step <= 1 && tier != "thorough" {
 				simple = 1 // base values: every nilable field absent, or every one present
 			}
-			out = append(out, genHarnesses(c, "gH05", map[string]int{"depth": 2, "step": step, "simple": simple}, 20000000)...)
+			out = append(out, genHarnesses(c, "gH05", map[string]int{"depth": 2, "step": step, "simple": simple, "ends": simple}, 20000000)...)
 		}
 		out = append(out, &sym.HarnessConfig{Name: "gHWitness", Pkg: c.Gen.MainPkg, Params: map[string]int{"type": 0, "depth": 1}, Budget: 20000000, ExpectViolation: true})
 		return out
@@ -610,7 +619,7 @@ func checkC05() *CheckDef {
 	c.Bounds = func(tier string) map[string]interface{} {
 		return genBounds(c, map[string]interface{}{
 			"evolution_steps": "one step on the top-level struct: unknown field (symbolic id, 14 well-formed shapes, every field boundary); declared field re-encoded with another wire type; declared field removed; fields reversed",
-			"value_shapes":    "as C01 (quick tier, steps with foreign values: base values with all nilable fields absent or all present)",
+			"value_shapes":    "as C01 (quick tier, steps with foreign values: base values with all nilable fields absent or all present; unknown field inserted at the first or last boundary)",
 			"outside":         "steps inside nested structs/containers; two or more steps; container element-type mismatch (the statement is silent on it)",
 		})
 	}
